@@ -269,7 +269,8 @@ class VSocket(object):
         if self.closed:
             s.log('shutdown', sock=self.sid, result='EBADF')
             raise OSError(errno.EBADF, 'Bad file descriptor')
-        if not self.connected:
+        if not self.connected or (self.session is not None and self.session.srv_reset):
+            # (a connection the peer has reset is gone as far as the kernel is concerned: shutdown() reports ENOTCONN)
             s.log('shutdown', sock=self.sid, result='ENOTCONN')
             raise OSError(errno.ENOTCONN, 'Transport endpoint is not connected')
         if how in (_real_socket.SHUT_RD, _real_socket.SHUT_RDWR):
